@@ -737,6 +737,77 @@ func C19(r *vf.Run) {
 			r.MergeCells(cells)
 		})
 	}
+	if r.Phase("huge-blocks") {
+		// one call's payload as the varied dimension: data blocks of a whole bank and more (2^16-1 .. 2^17+3
+		// bytes) into targets 0-4 bytes, exactly 2^16 bytes, or one whole block short, behind 0-2 small calls
+		g := r.Rand("huge")
+		cells := map[string]int64{}
+		sizes := []int{0xFFFF, 0x10000, 0x10001, 0x10004, 0x1FFFF, 0x20000, 0x20003}
+		for si, L := range sizes {
+			blk := make([]byte, L)
+			for i := range blk {
+				blk[i] = byte(g.Intn(256))
+			}
+			for pre := 0; pre <= 2; pre++ {
+				for _, short := range []int{0, 1, 2, 3, 4, 0x10000, L - 1, L} {
+					if r.TooMany() {
+						break
+					}
+					capacity := pre + L - short
+					if capacity < pre {
+						continue
+					}
+					listing := short != 0 && (si+pre)%3 == 0
+					buf := make([]byte, capacity+8)
+					for i := range buf {
+						buf[i] = 0xCC
+					}
+					e := asm.NewEmitter(buf[:capacity], listing)
+					for i := 0; i < pre; i++ {
+						e.NOP()
+					}
+					before := observe(e, nil)
+					bufBefore := append([]byte(nil), buf...)
+					r.Eval(1)
+					pan := vf.Try(func() { e.EmitBytes(blk) })
+					h := []string{fmt.Sprintf("NewEmitter(%d bytes, listing=%v)", capacity, listing), fmt.Sprintf("NOP x%d", pre), fmt.Sprintf("EmitBytes(%d bytes)", L)}
+					if string(buf[capacity:]) != string(bufBefore[capacity:]) || e.Len() > e.Cap() {
+						r.Fail("huge-block-beyond-capacity", fmt.Sprintf("EmitBytes(%d bytes) at Len %d, capacity %d: Len=%d Cap=%d or guard bytes written", L, pre, capacity, e.Len(), e.Cap()), h)
+						continue
+					}
+					if short == 0 {
+						if pan != nil {
+							r.Fail("huge-block-refused", fmt.Sprintf("EmitBytes(%d bytes) at Len %d fits capacity %d exactly but was refused: %v", L, pre, capacity, pan), h)
+						} else if e.Len() != pre+L || string(e.Bytes()[pre:]) != string(blk) || e.PC() != before.PC+uint32(L) {
+							r.Fail("huge-block-accepted-wrongly", fmt.Sprintf("EmitBytes(%d bytes) at Len %d: Len=%d PC=$%06x, expected %d/$%06x and the block's bytes", L, pre, e.Len(), e.PC(), pre+L, before.PC+uint32(L)), h)
+						}
+						cells[fmt.Sprintf("huge:%d:fits", L>>16)]++
+						continue
+					}
+					sc := "short<=4"
+					if short > 4 {
+						sc = "short>=2^16"
+						if short < 0x10000 {
+							sc = "short<2^16"
+						}
+					}
+					if pan == nil {
+						r.Fail("overflowing-call-accepted-huge-block", fmt.Sprintf("EmitBytes(%d bytes) at Len %d with %d bytes of room (%d short) was accepted: Len=%d PC=$%06x", L, pre, capacity-pre, short, e.Len(), e.PC()), h)
+						continue
+					}
+					after := observe(e, nil)
+					after.Flags = before.Flags
+					if d := before.diff(after); d != "" {
+						r.Fail("refused-call-changed-huge-block", fmt.Sprintf("refused EmitBytes(%d bytes) (%d short) changed %s", L, short, d), h)
+					} else if string(buf) != string(bufBefore) {
+						r.Fail("refused-call-wrote-buffer-huge-block", fmt.Sprintf("refused EmitBytes(%d bytes) (%d short) wrote target byte %d", L, short, firstDiff(buf, bufBefore)), h)
+					}
+					cells[fmt.Sprintf("huge:%d:%s", L>>16, sc)]++
+				}
+			}
+		}
+		r.MergeCells(cells)
+	}
 	if r.Phase("append-capacity") {
 		// the other way bytes get into an emitter: Append of a clone. The clone's target is a separate
 		// buffer or the unused part of the arena the parent's own window was cut from.
